@@ -81,8 +81,8 @@ impl Service<http::Request<tonic::body::Body>> for Inner {
 
 pub fn run(cfg: &RunCfg) -> Ctx {
     let mut all = Ctx::new();
-    all.merge(par_cases(cfg, "response", cfg.n(16_000, 16 * 40_000), || (), |_, rng, ctx, _| response_case(rng, ctx)));
-    all.merge(par_cases(cfg, "request", cfg.n(16_000, 16 * 40_000), || (), |_, rng, ctx, _| request_case(rng, ctx)));
+    all.merge(par_cases(cfg, "response", cfg.n(16_000, 16 * 600_000), || (), |_, rng, ctx, _| response_case(rng, ctx)));
+    all.merge(par_cases(cfg, "request", cfg.n(16_000, 16 * 600_000), || (), |_, rng, ctx, _| request_case(rng, ctx)));
     all.merge(seq_cases(cfg, "matrix", 7 * 3 * 10, |_, ctx, i| matrix_case(ctx, i)));
     for k in ["resp.text", "resp.binary", "resp.frame_split_across_chunks", "resp.trailers_with_colon", "req.text", "req.binary", "req.text.cut_mod4.1", "req.text.cut_mod4.2", "req.text.cut_mod4.3", "req.cut_inside_prefix", "matrix.405", "matrix.400", "matrix.passthrough", "matrix.grpcweb"] {
         all.floor(k, 5);
